@@ -638,6 +638,9 @@ pub struct Plan {
 fn w(call: Call, key: u8, val: u8) -> Action {
     Action::Write { node: 0, call, key, val }
 }
+fn wn(node: u8, call: Call, key: u8, val: u8) -> Action {
+    Action::Write { node, call, key, val }
+}
 fn hs(from: u8, to: u8) -> Action {
     Action::Handshake { from, to, choices: vec![] }
 }
@@ -662,6 +665,25 @@ pub fn big_root(name: &str) -> Vec<Action> {
             w(Call::Delete, 2, 0),
             w(Call::Set, 3, 1),
             hs(0, 1),
+        ],
+        // small values, two owners whose top versions were deleted and collected (node 0 ends at (4,4)
+        // with a@1 left, node 1 at (3,3) with a@1 left); they know each other's state; node 2 has
+        // just been reset for both and sits behind both watermarks ((4,1) and (3,1)): the next delta
+        // for node 2 carries two known members that both need nothing but a max-version update
+        "two-owners-collected" => vec![
+            w(Call::Set, 0, 1),
+            w(Call::Set, 1, 1),
+            w(Call::Set, 1, 2),
+            w(Call::Delete, 1, 0),
+            wn(1, Call::Set, 0, 1),
+            wn(1, Call::Set, 1, 1),
+            wn(1, Call::Delete, 1, 0),
+            Action::Tick,
+            Action::Gc { node: 0 },
+            Action::Gc { node: 1 },
+            hs(0, 1),
+            hs(0, 1),
+            hs(2, 0),
         ],
         // node 1 holds a truncated copy (first 40 KB value only)
         "truncated-copy" => vec![w(Call::Set, 0, 3), w(Call::Set, 1, 3), w(Call::Set, 2, 1), hs(0, 1)],
@@ -701,6 +723,7 @@ pub fn plans(props: &[&'static str], tier: Tier) -> Vec<Plan> {
             pr(big3(), mk("msg-3nodes-big-values", false, &[0], &three, 4, &[1, 3], [0, 2, 0, 1, 1, 0, 0], cap), 12, "stale-peer-behind-a-deletion"),
             p(small2(), mk("hs-2nodes-restart", true, &[0], &[Call::Set, Call::Delete], 2, &[1], [2, 0, 0, 0, 0, 3, 1], cap), 8),
             p(small3_mapped(), mk("hs-3nodes-owner-on-ipv4-mapped-address", true, &[0], &[Call::Set, Call::Delete], 2, &[1], [2, 0, 0, 0, 0, 3, 0], cap), 8),
+            pr(small3(), mk("hs-3nodes-small-values-2writers", true, &[0, 1], &[Call::Set, Call::Delete], 2, &[1], [1, 0, 0, 0, 0, 3, 0], cap), 6, "two-owners-collected"),
         ],
         Tier::Thorough => vec![
             // message granularity
@@ -725,6 +748,7 @@ pub fn plans(props: &[&'static str], tier: Tier) -> Vec<Plan> {
             p(small3(), mk("hs-3nodes-small-values", true, &[0], &all, 3, &[1, 2], [4, 0, 0, 2, 1, 5, 0], cap), 300),
             p(small3(), mk("hs-3nodes-small-values-2writers", true, &[0, 1], &all, 2, &[1, 2], [4, 0, 0, 2, 1, 5, 0], cap), 300),
             p(small4(), mk("hs-4nodes-small-values", true, &[0], &all, 3, &[1, 2], [3, 0, 0, 1, 1, 5, 0], cap), 300),
+            pr(small3(), mk("hs-3nodes-small-values-2writers", true, &[0, 1], &three, 2, &[1, 2], [2, 0, 0, 1, 1, 4, 0], cap), 200, "two-owners-collected"),
         ],
     }
 }
